@@ -457,7 +457,7 @@ class Ctx:
                 t.check(bytes(g) == bytes(fresh) and self.observe(g) == self.observe(fresh), "C19", "C19.clear_fresh.bloom", ENGINE, lambda: rp(who=who), {"kind": kind})
 
 
-def profiles(tier, seed):
+def profiles(tier, seed, light=False):
     P = []
     base = dict(keys=["a", "b", "c"], amts=[1], whos=["A", "B"], counting=False, cellmax=2, totmax=1000, maxn=2, maxdepth=4)
     if tier == "quick":
@@ -483,6 +483,8 @@ def profiles(tier, seed):
             P.append(dict(cb, M=M, K=K, H=H, ntables=25))
         for (M, K, H) in [(3, 2, 5), (2, 1, 3), (4, 3, 7)]:
             P.append(dict(cb, M=M, K=K, H=H, ntables=30, cellmax=3, totmax=5, amts=[1, 2, 4, 7], maxn=8, maxdepth=4, patch_limits=True, keys=["a", "b"]))
+    if light and tier == "quick":  # cross-cutting properties ride on a reduced set of instances
+        P = [dict(p, ntables=min(p["ntables"], 3)) for p in P if not p.get("patch_limits")]
     for i, p in enumerate(P):
         p["tables"] = gen_tables(p["keys"], p["M"], p["K"], p["H"], p["ntables"], seed * 1000 + i, p.get("exhaustive", False))
     return P
@@ -498,7 +500,7 @@ FOCUS_FILTER = {
 def run(focus, tier, seed):
     total = Tally(focus)
     jobs = []
-    for p in profiles(tier, seed):
+    for p in profiles(tier, seed, focus in ("C05", "C14", "C19")):
         if focus in FOCUS_FILTER and not FOCUS_FILTER[focus](p):
             continue
         tabs = p["tables"]
